@@ -2,6 +2,8 @@
   Property C01 — linear error propagation is exact and aligned by configuration number.
   Property theorems only.
 -/
+import PV.Proofs.C04Lemmas
+import Mathlib.Tactic.FieldSimp
 import Mathlib.Algebra.BigOperators.Group.List.Basic
 import Mathlib.Analysis.SpecialFunctions.Arcosh
 import Mathlib.Analysis.SpecialFunctions.Arsinh
@@ -456,5 +458,379 @@ theorem c01_delta (f : List ℝ → ℝ) (g : List ℝ) (xs : List (Obs ℝ))
   rw [newDeltas_eq g xs hwf n, ← hidl] at hdel
   exact delta?_of_map _ n r hr _ hdel c (by rw [hidl]; exact hc)
 
+
+
+/-! ### independence of the splitting into intermediate steps -/
+
+section compose
+open PV.RealS
+set_option linter.unusedSimpArgs false
+set_option linter.unusedVariables false
+
+local notation "𝟘" => (@OfNat.ofNat ℝ 0 (Scalar.instOfNatScalar 0))
+
+/-- what `c01_chains`, `c01_union`, `c01_delta` establish about the result `y` of one propagation step with
+    gradient `g` from the inputs `xs` -/
+structure IsDerived (g : List ℝ) (xs : List (Obs ℝ)) (y : Obs ℝ) : Prop where
+  glen : g.length = xs.length
+  hasChain : ∀ n, (y.rep? n).isSome = true ↔ n ∈ newSampleNames xs
+  cfgs : ∀ n ∈ newSampleNames xs, Spec.cfgs y n = Spec.unionCfgs xs n
+  delta : ∀ n ∈ newSampleNames xs, ∀ c ∈ Spec.unionCfgs xs n, y.delta? n c = some (Spec.delta g xs n c)
+  nodelta : ∀ n c, c ∉ Spec.cfgs y n → y.delta? n c = none
+  inputChains : ∀ x ∈ xs, ∀ n, (x.rep? n).isSome = true → n ∈ newSampleNames xs
+
+/-- the term of input `o` (gradient `g`) in the fluctuation formula, relative to the input list `xs` -/
+noncomputable def dterm (xs : List (Obs ℝ)) (n : String) (c : Int) (g : ℝ) (o : Obs ℝ) : Option ℝ :=
+  match o.rep? n with
+  | none => none
+  | some _ => some (g * (Spec.weight xs o n * (o.delta? n c).getD 𝟘))
+
+theorem delta_eq_dterm (g : List ℝ) (xs : List (Obs ℝ)) (n : String) (c : Int) :
+    Spec.delta g xs n c = ((List.zip g xs).filterMap (fun p => dterm xs n c p.1 p.2)).sum := by
+  unfold Spec.delta dterm
+  rw [sum_eq]
+  congr 2
+  funext p
+  rcases p with ⟨g, o⟩
+  dsimp only
+  cases o.rep? n <;> rfl
+
+/-- sum of the terms of one group -/
+noncomputable def groupSum (ref : List (Obs ℝ)) (n : String) (c : Int) (g : List ℝ) (xs : List (Obs ℝ)) : ℝ :=
+  ((List.zip g xs).filterMap (fun p => dterm ref n c p.1 p.2)).sum
+
+/-- a two-level evaluation: per intermediate result its outer gradient entry, inner gradient, inputs, and the
+    intermediate observable itself -/
+structure Group where
+  a : ℝ
+  G : List ℝ
+  X : List (Obs ℝ)
+  y : Obs ℝ
+
+/-- the one-shot gradient (chain rule) and the one-shot input list of a two-level evaluation -/
+def totalGrad (qs : List Group) : List ℝ := qs.flatMap (fun q => q.G.map (q.a * ·))
+def totalInputs (qs : List Group) : List (Obs ℝ) := qs.flatMap (fun q => q.X)
+
+theorem groupSum_flatten (ref : List (Obs ℝ)) (n : String) (c : Int) (qs : List Group)
+    (hlen : ∀ q ∈ qs, q.G.length = q.X.length) :
+    groupSum ref n c (totalGrad qs) (totalInputs qs)
+      = (qs.map (fun q => groupSum ref n c (q.G.map (q.a * ·)) q.X)).sum := by
+  induction qs with
+  | nil => simp [groupSum, totalGrad, totalInputs]
+  | cons q qs ih =>
+    have hq := hlen q (by simp)
+    have := ih (fun q' hq' => hlen q' (by simp [hq']))
+    simp only [List.map_cons, List.sum_cons, ← this]
+    simp only [groupSum, totalGrad, totalInputs, List.flatMap_cons]
+    rw [List.zip_append (by simp [hq]), List.filterMap_append, List.sum_append]
+
+theorem mem_unionCfgs (X : List (Obs ℝ)) (n : String) (c : Int) :
+    c ∈ Spec.unionCfgs X n ↔ ∃ x ∈ X, c ∈ Spec.cfgs x n := by
+  unfold Spec.unionCfgs
+  rw [C01b.mem_sortedSet, List.mem_flatMap]
+
+theorem sum_filterMap_zero {β : Type} (l : List β) (f : β → Option ℝ) (h : ∀ b ∈ l, f b = none ∨ f b = some 0) :
+    (l.filterMap f).sum = 0 := by
+  induction l with
+  | nil => simp
+  | cons b bs ih =>
+    rw [List.filterMap_cons]
+    rcases h b (by simp) with h1 | h1
+    · rw [h1]; exact ih (fun b' hb' => h b' (by simp [hb']))
+    · rw [h1]; simp [ih (fun b' hb' => h b' (by simp [hb']))]
+
+theorem sum_filterMap_scale {β : Type} (l : List β) (f f' : β → Option ℝ) (k : ℝ)
+    (h : ∀ b ∈ l, f' b = (f b).map (k * ·)) : (l.filterMap f').sum = k * (l.filterMap f).sum := by
+  induction l with
+  | nil => simp
+  | cons b bs ih =>
+    rw [List.filterMap_cons, List.filterMap_cons, h b (by simp)]
+    have := ih (fun b' hb' => h b' (by simp [hb']))
+    cases f b with
+    | none => simpa using this
+    | some v => simp [this, mul_add]
+
+/-- one group: the term of the intermediate result `y` equals the sum of the terms of its inputs in the
+    one-shot evaluation, provided the weights telescope -/
+theorem group_identity (ys flat X : List (Obs ℝ)) (G : List ℝ) (y : Obs ℝ) (a : ℝ) (n : String) (c : Int)
+    (hd : IsDerived G X y)
+    (hW : ∀ x ∈ X, (x.rep? n).isSome = true → Spec.weight ys y n * Spec.weight X x n = Spec.weight flat x n)
+    (hnod : ∀ x ∈ X, ∀ c, c ∉ Spec.cfgs x n → x.delta? n c = none) :
+    (dterm ys n c a y).getD 0 = groupSum flat n c (G.map (a * ·)) X := by
+  have hzip : List.zip (G.map (a * ·)) X = (List.zip G X).map (fun p => (a * p.1, p.2)) := by
+    rw [List.zip_map_left]; rfl
+  unfold groupSum
+  rw [hzip, List.filterMap_map]
+  cases hy : y.rep? n with
+  | none =>
+    -- no input of the group has the chain
+    simp only [dterm, hy]
+    symm
+    apply sum_filterMap_zero
+    intro p hp
+    left
+    have hx : p.2 ∈ X := (List.of_mem_zip hp).2
+    have hnone : p.2.rep? n = none := by
+      by_contra hne
+      have hsome : (p.2.rep? n).isSome = true := by
+        cases h : p.2.rep? n with
+        | none => exact absurd h hne
+        | some _ => rfl
+      have := (hd.hasChain n).mpr (hd.inputChains p.2 hx n hsome)
+      rw [hy] at this
+      simp at this
+    simp [dterm, hnone]
+  | some r =>
+    have hn : n ∈ newSampleNames X := (hd.hasChain n).mp (by rw [hy]; rfl)
+    simp only [dterm, hy]
+    by_cases hc : c ∈ Spec.unionCfgs X n
+    · rw [hd.delta n hn c hc, delta_eq_dterm]
+      simp only [Option.getD_some]
+      rw [← mul_assoc, ← sum_filterMap_scale (List.zip G X) (fun p => dterm X n c p.1 p.2) _ (a * Spec.weight ys y n)]
+      intro p hp
+      have hx : p.2 ∈ X := (List.of_mem_zip hp).2
+      simp only [Function.comp, dterm]
+      cases hp2 : p.2.rep? n with
+      | none => simp
+      | some r2 =>
+        have hw := hW p.2 hx (by rw [hp2]; rfl)
+        simp only [Option.map_some]
+        congr 1
+        rw [← hw]
+        ring
+    · have hnone : y.delta? n c = none := hd.nodelta n c (by rw [hd.cfgs n hn]; exact hc)
+      rw [hnone]
+      have h0 : a * (Spec.weight ys y n * (none : Option ℝ).getD 𝟘) = 0 := by simp
+      rw [h0]
+      symm
+      apply sum_filterMap_zero
+      intro p hp
+      have hx : p.2 ∈ X := (List.of_mem_zip hp).2
+      simp only [Function.comp, dterm]
+      cases hp2 : p.2.rep? n with
+      | none => left; rfl
+      | some r2 =>
+        right
+        have : c ∉ Spec.cfgs p.2 n := fun hcc => hc ((mem_unionCfgs X n c).mpr ⟨p.2, hx, hcc⟩)
+        rw [hnod p.2 hx c this]
+        simp
+
+theorem sum_filterMap_eq_sum_map {β : Type} (l : List β) (f : β → Option ℝ) :
+    (l.filterMap f).sum = (l.map (fun b => (f b).getD 0)).sum := by
+  induction l with
+  | nil => simp
+  | cons b bs ih =>
+    rw [List.filterMap_cons, List.map_cons, List.sum_cons, ← ih]
+    cases f b <;> simp
+
+/-- **composition of two propagation steps = one step with the chain-rule gradient**, per chain and
+    configuration, whenever the up-weighting factors telescope -/
+theorem compose_delta (qs : List Group) (n : String) (c : Int)
+    (hd : ∀ q ∈ qs, IsDerived q.G q.X q.y)
+    (hW : ∀ q ∈ qs, ∀ x ∈ q.X, (x.rep? n).isSome = true →
+      Spec.weight (qs.map (·.y)) q.y n * Spec.weight q.X x n = Spec.weight (totalInputs qs) x n)
+    (hnod : ∀ q ∈ qs, ∀ x ∈ q.X, ∀ c, c ∉ Spec.cfgs x n → x.delta? n c = none) :
+    Spec.delta (qs.map (·.a)) (qs.map (·.y)) n c = Spec.delta (totalGrad qs) (totalInputs qs) n c := by
+  rw [delta_eq_dterm, delta_eq_dterm]
+  have hR := groupSum_flatten (totalInputs qs) n c qs (fun q hq => (hd q hq).glen)
+  have hz : List.zip (qs.map (·.a)) (qs.map (·.y)) = qs.map (fun q => (q.a, q.y)) := List.zip_map'
+  have hL : ((List.zip (qs.map (·.a)) (qs.map (·.y))).filterMap (fun p => dterm (qs.map (·.y)) n c p.1 p.2)).sum
+      = (qs.map (fun q => (dterm (qs.map (·.y)) n c q.a q.y).getD 0)).sum := by
+    rw [hz, sum_filterMap_eq_sum_map, List.map_map]
+    rfl
+  rw [hL]
+  have hR' : ((List.zip (totalGrad qs) (totalInputs qs)).filterMap (fun p => dterm (totalInputs qs) n c p.1 p.2)).sum
+      = (qs.map (fun q => groupSum (totalInputs qs) n c (q.G.map (q.a * ·)) q.X)).sum := hR
+  rw [hR']
+  have hterm : ∀ q ∈ qs, (dterm (qs.map (·.y)) n c q.a q.y).getD 0
+      = groupSum (totalInputs qs) n c (q.G.map (q.a * ·)) q.X := by
+    intro q hq
+    have h1 := hd q hq
+    have h2 := hW q hq
+    have h3 := hnod q hq
+    exact group_identity _ _ _ _ _ _ n c h1 h2 h3
+  exact congrArg List.sum (List.map_congr_left hterm)
+theorem rep_isSome_iff (o : Obs ℝ) (n : String) : (o.rep? n).isSome = true ↔ n ∈ o.names := by
+  unfold Obs.rep? Obs.names
+  rw [List.find?_isSome]
+  simp only [beq_iff_eq, List.mem_map]
+
+theorem rep_name_of_some (o : Obs ℝ) (n : String) (r : Rep ℝ) (h : o.rep? n = some r) : r.name = n ∧ r ∈ o.reps := by
+  unfold Obs.rep? at h
+  have h1 := List.find?_some h
+  have h2 := List.mem_of_find?_eq_some h
+  exact ⟨by simpa using h1, h2⟩
+
+theorem delta_none_of_not_mem (o : Obs ℝ) (n : String) (c : Int) (h : c ∉ Spec.cfgs o n) : o.delta? n c = none := by
+  unfold Obs.delta? Spec.cfgs at *
+  cases hr : o.rep? n with
+  | none => rfl
+  | some r =>
+    rw [hr] at h
+    simp only [Option.bind_eq_bind, Option.bind_some]
+    have : r.idl.pos? c = none := by
+      unfold Idl.pos?
+      simp only
+      have : ¬ (List.findIdx (fun x => x == c) r.idl.toList < r.idl.toList.length) := by
+        intro hlt
+        have hget := List.findIdx_getElem (w := hlt)
+        simp only [beq_iff_eq] at hget
+        exact h (hget ▸ List.getElem_mem hlt)
+      simp [this]
+    rw [this]
+    rfl
+
+theorem mem_newSampleNames_of_input (xs : List (Obs ℝ)) (x : Obs ℝ) (hx : x ∈ xs) (n : String) (hn : n ∈ x.names)
+    (hclash : ¬ ((Py.sortedSetStr (xs.flatMap (·.covNames))).any (fun m => xs.any (fun o => o.names.contains m))) = true) :
+    n ∈ newSampleNames xs := by
+  unfold newSampleNames
+  simp only [List.mem_filter]
+  constructor
+  · rw [C04.mem_sortedSetStr]
+    exact List.mem_flatMap.mpr ⟨x, hx, by simp [hn]⟩
+  · simp only [Bool.not_eq_true', ← Bool.not_eq_true]
+    intro hc
+    apply hclash
+    rw [List.any_eq_true]
+    exact ⟨n, by simpa using hc, by rw [List.any_eq_true]; exact ⟨x, hx, by simpa using hn⟩⟩
+
+theorem derivedObs_checks {f : List ℝ → ℝ} {g : List ℝ} {xs : List (Obs ℝ)}
+    {covEq : List (List ℝ) → List (List ℝ) → Bool} {o : Obs ℝ} (h : derivedObs f g xs covEq = .ok o) :
+    g.length = xs.length ∧
+    ¬ ((Py.sortedSetStr (xs.flatMap (·.covNames))).any (fun m => xs.any (fun o => o.names.contains m))) = true := by
+  unfold derivedObs at h
+  split at h
+  · cases h
+  · rename_i hg
+    split at h
+    · cases h
+    · split at h
+      · cases h
+      · rename_i hc
+        exact ⟨by simpa using hg, hc⟩
+
+/-- one successful propagation step has the properties collected in `IsDerived` -/
+theorem isDerived_of_derivedObs (f : List ℝ → ℝ) (g : List ℝ) (xs : List (Obs ℝ))
+    (covEq : List (List ℝ) → List (List ℝ) → Bool) (y : Obs ℝ)
+    (hwf : ∀ x ∈ xs, x.WF = true) (h : derivedObs f g xs covEq = .ok y) : IsDerived g xs y := by
+  obtain ⟨hlen, hclash⟩ := derivedObs_checks h
+  have hnames := c01_chains f g xs covEq y h
+  have hchain : ∀ n, (y.rep? n).isSome = true ↔ n ∈ newSampleNames xs := by
+    intro n; rw [rep_isSome_iff, hnames]
+  refine ⟨hlen, hchain, ?_, ?_, ?_, ?_⟩
+  · intro n hn
+    have hs := (hchain n).mpr hn
+    cases hr : y.rep? n with
+    | none => rw [hr] at hs; cases hs
+    | some r =>
+      obtain ⟨hname, hmem⟩ := rep_name_of_some y n r hr
+      have := c01_union f g xs covEq y hwf h r hmem
+      simp only [Spec.cfgs, hr]
+      rw [this, hname]
+  · exact c01_delta f g xs covEq y hwf hlen h
+  · exact fun n c hc => delta_none_of_not_mem y n c hc
+  · intro x hx n hn
+    exact mem_newSampleNames_of_input xs x hx n ((rep_isSome_iff x n).mp hn) hclash
+
+theorem cfgs_nonempty_has_chain (o : Obs ℝ) (n : String) (c : Int) (h : c ∈ Spec.cfgs o n) : (o.rep? n).isSome = true := by
+  unfold Spec.cfgs at h
+  cases hr : o.rep? n with
+  | none => rw [hr] at h; simp at h
+  | some r => rfl
+
+/-- the intermediate result of a group is measured exactly where some input of the group is -/
+theorem mem_cfgs_group (q : Group) (hd : IsDerived q.G q.X q.y) (n : String) (c : Int) :
+    c ∈ Spec.cfgs q.y n ↔ ∃ x ∈ q.X, c ∈ Spec.cfgs x n := by
+  constructor
+  · intro h
+    have hn := (hd.hasChain n).mp (cfgs_nonempty_has_chain q.y n c h)
+    rw [hd.cfgs n hn] at h
+    exact (mem_unionCfgs q.X n c).mp h
+  · rintro ⟨x, hx, hc⟩
+    have hn := hd.inputChains x hx n (cfgs_nonempty_has_chain x n c hc)
+    rw [hd.cfgs n hn]
+    exact (mem_unionCfgs q.X n c).mpr ⟨x, hx, hc⟩
+
+/-- the union over the intermediate results is the union over all inputs -/
+theorem unionCfgs_groups (qs : List Group) (n : String) (hd : ∀ q ∈ qs, IsDerived q.G q.X q.y) :
+    Spec.unionCfgs (qs.map (·.y)) n = Spec.unionCfgs (totalInputs qs) n := by
+  unfold Spec.unionCfgs
+  apply C01b.sortedSet_eq_of _ _ (C01b.pairwise_sortedSet _)
+  intro c
+  rw [C01b.mem_sortedSet]
+  simp only [List.mem_flatMap, List.mem_map, totalInputs]
+  constructor
+  · rintro ⟨x, ⟨q, hq, hx⟩, hc⟩
+    exact ⟨q.y, ⟨q, hq, rfl⟩, (mem_cfgs_group q (hd q hq) n c).mpr ⟨x, hx, hc⟩⟩
+  · rintro ⟨y, ⟨q, hq, rfl⟩, hc⟩
+    obtain ⟨x, hx, hc'⟩ := (mem_cfgs_group q (hd q hq) n c).mp hc
+    exact ⟨x, ⟨q, hq, hx⟩, hc'⟩
+
+/-- the up-weighting factors telescope when no missing-replica factor occurs -/
+theorem weight_telescope (qs : List Group) (q : Group) (hq : q ∈ qs) (x : Obs ℝ) (hx : x ∈ q.X) (n : String)
+    (hd : ∀ q ∈ qs, IsDerived q.G q.X q.y) (hne : Spec.cfgs x n ≠ [])
+    (hs1 : Spec.sigma (qs.map (·.y)) q.y (Py.ensOf n) = 1) (hs2 : Spec.sigma q.X x (Py.ensOf n) = 1)
+    (hs3 : Spec.sigma (totalInputs qs) x (Py.ensOf n) = 1) :
+    Spec.weight (qs.map (·.y)) q.y n * Spec.weight q.X x n = Spec.weight (totalInputs qs) x n := by
+  obtain ⟨c, hc⟩ := List.exists_mem_of_ne_nil _ hne
+  have hn := (hd q hq).inputChains x hx n (cfgs_nonempty_has_chain x n c hc)
+  have hcU : c ∈ Spec.unionCfgs q.X n := (mem_unionCfgs q.X n c).mpr ⟨x, hx, hc⟩
+  have hB : ((Spec.unionCfgs q.X n).length : ℝ) ≠ 0 := by
+    have : 0 < (Spec.unionCfgs q.X n).length := List.length_pos_of_mem hcU
+    exact_mod_cast this.ne'
+  have hC : ((Spec.cfgs x n).length : ℝ) ≠ 0 := by
+    have : 0 < (Spec.cfgs x n).length := List.length_pos_of_mem hc
+    exact_mod_cast this.ne'
+  unfold Spec.weight
+  rw [hs1, hs2, hs3, unionCfgs_groups qs n hd, (hd q hq).cfgs n hn]
+  simp only [ofNatS_eq, mul_one]
+  field_simp
+
+/-- **C01 (independence of the splitting into intermediate steps), partial.**  Evaluate an expression in two
+    levels - every intermediate result `q.y` by one propagation step from its own inputs `q.X` with gradient
+    `q.G`, then the final result from the intermediate results with gradient `a` - or in one step from all
+    inputs with the chain-rule gradient `a_i · G_ij`.  On every chain and every configuration the two results
+    carry the same fluctuation, for any number of groups, inputs, replicas and any configuration lists, provided
+    no missing-replica factor occurs (all `sigma = 1`: the inputs touching an ensemble share their replica set).
+    The union factors `|U|/|I|` telescope through the intermediate unions.
+
+    Partial: the case "same configuration list per replica, different replica sets" (where the missing-replica
+    factors telescope instead) and the derivation of `sigma = 1` from the set-level hypothesis are not proved;
+    the hypothesis `hywf` is what `c04_derived_wf` provides. -/
+theorem c01_compose_partial (qs : List Group) (fs : Group → List ℝ → ℝ) (f2 F : List ℝ → ℝ)
+    (covEq : List (List ℝ) → List (List ℝ) → Bool) (z z1 : Obs ℝ)
+    (hwf : ∀ q ∈ qs, ∀ x ∈ q.X, x.WF = true)
+    (hy : ∀ q ∈ qs, derivedObs (fs q) q.G q.X covEq = .ok q.y)
+    (hywf : ∀ q ∈ qs, q.y.WF = true)
+    (hz : derivedObs f2 (qs.map (·.a)) (qs.map (·.y)) covEq = .ok z)
+    (hz1 : derivedObs F (totalGrad qs) (totalInputs qs) covEq = .ok z1)
+    (hne : ∀ q ∈ qs, ∀ x ∈ q.X, ∀ n, (x.rep? n).isSome = true → Spec.cfgs x n ≠ [])
+    (hs1 : ∀ q ∈ qs, ∀ e, Spec.sigma (qs.map (·.y)) q.y e = 1)
+    (hs2 : ∀ q ∈ qs, ∀ x ∈ q.X, ∀ e, Spec.sigma q.X x e = 1 ∧ Spec.sigma (totalInputs qs) x e = 1) :
+    ∀ n, n ∈ newSampleNames (qs.map (·.y)) → n ∈ newSampleNames (totalInputs qs) →
+      ∀ c ∈ Spec.unionCfgs (totalInputs qs) n, z.delta? n c = z1.delta? n c := by
+  intro n hn1 hn2 c hc
+  have hd : ∀ q ∈ qs, IsDerived q.G q.X q.y :=
+    fun q hq => isDerived_of_derivedObs (fs q) q.G q.X covEq q.y (hwf q hq) (hy q hq)
+  have hU := unionCfgs_groups qs n hd
+  have hwfY : ∀ y ∈ qs.map (·.y), y.WF = true := by
+    intro y hy'
+    obtain ⟨q, hq, rfl⟩ := List.mem_map.mp hy'
+    exact hywf q hq
+  have hwfX : ∀ x ∈ totalInputs qs, x.WF = true := by
+    intro x hx
+    obtain ⟨q, hq, hxq⟩ := List.mem_flatMap.mp hx
+    exact hwf q hq x hxq
+  have e1 := c01_delta f2 (qs.map (·.a)) (qs.map (·.y)) covEq z hwfY (by simp) hz n hn1 c (by rw [hU]; exact hc)
+  have e2 := c01_delta F (totalGrad qs) (totalInputs qs) covEq z1 hwfX (derivedObs_checks hz1).1 hz1 n hn2 c hc
+  rw [e1, e2]
+  congr 1
+  apply compose_delta qs n c hd
+  · intro q hq x hx hxn
+    exact weight_telescope qs q hq x hx n hd (hne q hq x hx n hxn) (hs1 q hq _) (hs2 q hq x hx _).1 (hs2 q hq x hx _).2
+  · intro q hq x hx c' hc'
+    exact delta_none_of_not_mem x n c' hc'
+
+end compose
 
 end PV
